@@ -140,9 +140,17 @@ impl RelayMap {
 
     /// Extends this `RelayMap` with another one.
     pub fn extend(&self, other: &RelayMap) {
-        let mut a = self.relays.write().expect("poisoned");
-        let b = other.relays.read().expect("poisoned");
-        a.extend(b.iter().map(|(a, b)| (a.clone(), b.clone())));
+        // Copy the other map's entries before taking our write lock: `other` may be a clone
+        // of `self` (sharing the same lock), and holding two locks at once would also make
+        // concurrent `a.extend(&b)` / `b.extend(&a)` calls deadlock.
+        let entries: Vec<_> = other
+            .relays
+            .read()
+            .expect("poisoned")
+            .iter()
+            .map(|(url, config)| (url.clone(), config.clone()))
+            .collect();
+        self.relays.write().expect("poisoned").extend(entries);
     }
 
     /// Sets an authorization token for all relays configured in this relay map.
